@@ -58,7 +58,8 @@ def fraction_values(ctx, r, n, dens):
         case = {"number": repr(num), "numerator": repr(p), "denominator": q}
         ctx.ev()
         try:
-            fv = FractionValue(num, (p, q)) if r.random() < 0.6 else FractionValue(num, Fraction(p, q))
+            qq = float(q) if r.random() < 0.15 else q
+            fv = FractionValue(num, (p, qq)) if r.random() < 0.6 else FractionValue(num, Fraction(p, qq))
         except Exception as e:
             ctx.violation("FractionValue-construction-raised:%s" % type(e).__name__, dict(case, error=str(e)[:160]), replay=case)
             continue
@@ -137,7 +138,9 @@ def fraction_arithmetic(ctx, r, n, dens):
         k = r.random()
         if k < 0.6:
             p, q = short(r, 99, (0, 0, 1, 2)), r.choice(dens[:40])
-            return Fraction(p, q), dec(p) / q, "Fraction(%r,%r)" % (p, q)
+            if r.random() < 0.25:
+                q = float(q)  # an integral denominator given as a float
+            return Fraction(p, q), dec(p) / dec(q), "Fraction(%r,%r)" % (p, q)
         if k < 0.8:
             p = short(r, 99, (0, 1, 2))
             return Fraction(p), dec(p), "Fraction(%r)" % (p,)
@@ -171,8 +174,9 @@ def fraction_arithmetic(ctx, r, n, dens):
                 ctx.violation("Fraction-arithmetic-raised:%s:%s" % (nm, type(e).__name__), dict(case, op=nm, error=str(e)[:120]), replay=dict(case, op=nm))
         if isinstance(a, Fraction):
             for nm, f, ef in (("neg", operator.neg, operator.neg), ("abs", abs, abs), ("float", float, float), ("inv", lambda x: x.inv(), lambda x: 1 / x), ("copy", lambda x: x.copy(), lambda x: x),
-                              ("**2", lambda x: x**2, lambda x: x**2), ("**-1", lambda x: x**-1, lambda x: x**-1), ("**3", lambda x: x**3, lambda x: x**3), ("**0", lambda x: x**0, lambda x: x**0)):  # fmt: skip
-                if nm in ("inv", "**-1") and ea == 0:
+                              ("**2", lambda x: x**2, lambda x: x**2), ("**-1", lambda x: x**-1, lambda x: x**-1), ("**3", lambda x: x**3, lambda x: x**3), ("**0", lambda x: x**0, lambda x: x**0),
+                              ("**-2", lambda x: x**-2, lambda x: x**-2), ("**-3", lambda x: x**-3, lambda x: x**-3), ("**1", lambda x: x**1, lambda x: x)):  # fmt: skip
+                if nm in ("inv", "**-1", "**-2", "**-3") and ea == 0:
                     continue
                 ctx.ev()
                 try:
